@@ -303,6 +303,16 @@ func propC12(c *Ctx) {
 			}
 		}
 	}
+	// Delete payloads with every SPI size 0..8, count 0..4 and an SPI area of exactly, or up to 5 octets more than, size*count
+	for sz := 0; sz <= 8; sz++ {
+		for cnt := 0; cnt <= 4; cnt++ {
+			for extra := 0; extra <= 5; extra++ {
+				body := append([]byte{byte(g.r.Intn(4)), byte(sz), 0, byte(cnt)}, g.keyBytesRandom(sz*cnt+extra)...)
+				in := encodeHeaderRef(g.header(), 42, encodeChainRef([]chainElem{{typ: 42, body: body}}))
+				c.c12Msg(s, in, false, "delete-sizes", n+60000+sz*100+cnt*10+extra, &corr)
+			}
+		}
+	}
 	for i := 0; i < c.n(6000, 300000); i++ {
 		var in []byte
 		tag := "mut"
